@@ -28,6 +28,8 @@ BOUND = {
     "quick": "L(5,3) x 6 feature rotations x 2 settings variants with default names; L(5,3) x 3 rotations x all ordered (i,j) x 5 collision kinds",
     "thorough": "L(6,3) x 6 rotations x 2 settings variants with default names; L(6,3) x 6 rotations x all ordered (i,j) x 5 collision kinds",
 }
+# as-built additions to the bound (kept next to BOUND so that the evidence reports them)
+BOUND = {k: v + "; plus: " + 'object API: every question moved to every other section with add_child between two to_xml() calls (L(4,3) quick / L(5,3) thorough), also renamed to a name already present in the target section' for k, v in BOUND.items()}
 NAMES = ["a", "b", "c", "d", "e", "f", "g"]
 KINDS = ["eq", "case", "count", "other", "meta"]
 CHOICES = [{"list_name": "c", "name": "x", "label": "X"}, {"list_name": "c", "name": "y", "label": "Y"}]
